@@ -2,6 +2,7 @@
 package main
 
 import (
+	"encoding/json"
 	"flag"
 	"fmt"
 	"os"
@@ -25,7 +26,18 @@ func main() {
 	replay := flag.String("replay", "", "replay file: re-evaluate that obligation only")
 	var overlays multi
 	flag.Var(&overlays, "overlay", "file=replacement (repeatable)")
+	list := flag.Bool("list", false, "print the registered packs as JSON")
 	flag.Parse()
+	if *list {
+		var out []map[string]any
+		for _, id := range rules.IDs() {
+			pk := rules.Get(id)
+			out = append(out, map[string]any{"id": id, "explanation": pk.Expl, "rule": pk.Rule, "assumptions": pk.Assumptions, "technique": pk.Technique})
+		}
+		b, _ := json.MarshalIndent(out, "", " ")
+		fmt.Println(string(b))
+		return
+	}
 	start := time.Now()
 	seed := int64(0)
 	if s := os.Getenv("VERIF_SEED"); s != "" {
@@ -59,6 +71,7 @@ func main() {
 		os.Exit(2)
 	}
 	r := core.NewReport(*prop)
+	r.ReplayDir = filepath.Join(*verif, "replays")
 	r.Explanation = pack.Expl
 	r.RuleText = pack.Rule
 	r.Assumptions = append(r.Assumptions, pack.Assumptions...)
